@@ -440,6 +440,9 @@ func checkC16(c *Check) {
 		c.Fail("C16-R1 lost instances: %d event types", nact)
 	}
 
+	// value range of the numeric decoders (shared with C05-R2)
+	c.parseWidthRule("R1")
+
 	// ---- R2 emit <=> write
 	kinds := l.recordKinds()
 	sas := l.stateAssignments(kinds)
